@@ -168,7 +168,7 @@ func (vc *VC) evalBuiltin(st *State, name string, c *ast.CallExpr) []Val {
 			}
 			return one(vc.newMap(st, t))
 		case *types.Chan:
-			vc.unsupportedf(c.Pos(), "make chan")
+			vc.concurrency(c.Pos(), "make chan")
 			return one(vc.havocVal(st, t, "chan"))
 		}
 	case "new":
@@ -220,7 +220,7 @@ func (vc *VC) evalBuiltin(st *State, name string, c *ast.CallExpr) []Val {
 		vc.assume(st, "false")
 		return nil
 	case "close":
-		vc.unsupportedf(c.Pos(), "close")
+		vc.concurrency(c.Pos(), "close")
 		return nil
 	}
 	vc.unsupportedf(c.Pos(), "builtin %s", name)
